@@ -10,12 +10,12 @@ META = dict(
   outside=['FixSelfIntersects / DoSplitOp', 'crossings between solution edges, nesting/orientation, Union idempotence (whole sweep)'],
 )
 OBLIGATIONS = [
-  O('C03.a-cleancollinear-4', 'eng_units.cpp', 'harness_cleancollinear', defs=['RN=4', 'G=3'], replace=FIX, unwind=9, no_checks=True, backend=['cadical', 'kissat'], tiers='t', timeout=3000, bound='rings of 4 points on [0,3]^2, any start point, both option values', desc='emitted path: >=3 vertices, no equal neighbours cyclically, no collinear triple (or no spike with PreserveCollinear), inside ring bounds'),
+  O('C03.a-cleancollinear-4', 'eng_units.cpp', 'harness_cleancollinear', defs=['RN=4', 'G=3'], replace=FIX, unwind=9, no_checks=True, backend=['cadical', 'kissat'], tiers='x', timeout=3000, bound='rings of 4 points on [0,3]^2, any start point, both option values', desc='emitted path: >=3 vertices, no equal neighbours cyclically, no collinear triple (or no spike with PreserveCollinear), inside ring bounds'),
   O('C03.a-validclosed-3', 'eng_units.cpp', 'harness_validclosed', defs=['RN=3'], unwind=5, bound='rings of 3 points, |coord|<=2^61', desc='IsValidClosedPath <=> not a very small triangle'),
   O('C03.a-validclosed-2', 'eng_units.cpp', 'harness_validclosed', defs=['RN=2'], unwind=5, bound='rings of 2 points', desc='rings of fewer than 3 points are invalid'),
   O('C03.a-validclosed-4', 'eng_units.cpp', 'harness_validclosed', defs=['RN=4'], unwind=6, bound='rings of 4 points', desc='rings of 4 or more points are valid'),
   O('C03.a-buildpath-3', 'eng_units.cpp', 'harness_buildpath', defs=['RN=3', 'G=2'], replace=APP, unwind=8, bound='rings of 3 points on [0,2]^2, open/closed, both directions', desc='BuildPath64 on 3-rings (where the tiny-triangle filter can apply): closed tiny triangles rejected, open pieces never'),
   O('C03.a-buildpath-4', 'eng_units.cpp', 'harness_buildpath', defs=['RN=4', 'G=2'], replace=APP, unwind=8, bound='rings of 4 points on [0,2]^2, open/closed, both directions', desc='BuildPath64 drops repeated points and starts at the documented vertex'),
-  O('C03.a-cleancollinear-5', 'eng_units.cpp', 'harness_cleancollinear', defs=['RN=5', 'G=2'], replace=FIX, unwind=16, backend=['cadical', 'kissat'], tiers='t', timeout=1800, bound='rings of 5 points on [0,2]^2', desc='as above'),
-  O('C03.a-cleancollinear-6', 'eng_units.cpp', 'harness_cleancollinear', defs=['RN=6', 'G=2'], replace=FIX, unwind=20, backend=['cadical', 'kissat'], tiers='t', timeout=3000, bound='rings of 6 points on [0,2]^2', desc='as above'),
+  O('C03.a-cleancollinear-5', 'eng_units.cpp', 'harness_cleancollinear', defs=['RN=5', 'G=2'], replace=FIX, unwind=16, backend=['cadical', 'kissat'], tiers='x', timeout=1800, bound='rings of 5 points on [0,2]^2', desc='as above'),
+  O('C03.a-cleancollinear-6', 'eng_units.cpp', 'harness_cleancollinear', defs=['RN=6', 'G=2'], replace=FIX, unwind=20, backend=['cadical', 'kissat'], tiers='x', timeout=3000, bound='rings of 6 points on [0,2]^2', desc='as above'),
 ]
